@@ -69,6 +69,7 @@ def run(R):
     res3 = runner.run_sliced(exes, ['c09', 'buffers'], 387, ['1'], timeout=3000)
     problems += zc.record(R, 'transition buffers: basic drop counter == 0 (hook), extended high-water < recorded size', 'all zones x years 1999..2050', res3,
                           'one evaluation = one (zone, year) cache fill; distinct = zones', [dict(zone='zonedb/*', years='1999..2050', dropped=0)])
+    problems += zc.abbrev_run(R, 'basic')
     if problems:
         zc.violation(R, 'c02', problems, 'rtc/zones c01 zonedb <oracle> <zlo> <zhi> %d ; rtc/zones c02x <oracle> <zlo> <zhi> %d' % (step, step))
     R.assumptions += [
